@@ -89,6 +89,11 @@ def run(rep, tier, seed, rng):
         if len(parts) != n: continue
         allb = sorted(x for p in parts.values() for x in p)
         fullset = sorted((b["builder"], b["app"]) for b in full[i]["impl"]["builds"])
+        mb = [(b["builder"], b["app"]) for b in (full[i]["model"].get("builds") or [])]
+        if len(mb) != len(set(mb)):
+            # an app name declared for two contexts that both reach the builder: two builds with one name, which the
+            # info file (a map keyed by name) shows once per run -- compare as sets, disjointness is not observable
+            allb = sorted(set(allb)); fullset = sorted(set(fullset))
         if allb != fullset:
             rep.violation("partitions count:1..%d/%d are not a disjoint cover of the unpartitioned set: %s vs %s" % (n, n, allb, fullset),
                           gen_common.replay_data(full[i], partitions=parts), found_input=True)
